@@ -1091,7 +1091,7 @@ PROPS = {
                      "abstract block writers) and the k-th seek/load of the source (real cursor glue) fail: the call in progress returns Err carrying the "
                      "failure, earlier calls are unaffected, never Ok for the faulted call, no Err without a fault, no panic; convert_merge_error kernel.",
                 note="Sorter facet (added): the MIR->SMT engine decides failure PROPAGATION in Sorter::{insert, write_chunk, merge_chunks, write_into_stream_writer, "
-                     "into_stream_merger_iter, into_reader_cursors, extract_reader_cursors_and_merger} on all paths (counter abstraction): every Result of a callee is examined by `?` or returned, "
+                     "into_stream_merger_iter, into_reader_cursors, extract_reader_cursors_and_merger} and Merger::{into_stream_merger_iter, write_into_stream_writer} / MergerIter::next on all paths (counter abstraction): every Result of a callee is examined by `?` or returned, "
                      "never unwrapped or dropped on an Ok path, no panic reachable, convert_merge_error only on error types that cannot carry a merge error. Fault INJECTION into the k-th "
                      "call of real merge functions / chunk creators through whole sorter runs, MergerIter::next and closures passed to iterator adaptors stay outside.",
                 quick_cmd="./check_C12.sh quick", thorough_cmd="./check_C12.sh thorough"),
